@@ -265,6 +265,45 @@ cJSON *good_first_byte_guarded(const cJSON * const object, const unsigned char *
     return NULL;
 }
 
+/* PTR1: text left over when the tokens end */
+cJSON *bad_PTR1_resolve(cJSON * const object, const char *pointer)
+{
+    cJSON *current = object;
+    if (pointer == NULL) { return NULL; }
+    while ((pointer[0] == '/') && (current != NULL))
+    {
+        pointer++;
+        current = current->child;
+        while ((pointer[0] != '\0') && (pointer[0] != '/')) { pointer++; }
+    }
+    return current;
+}
+cJSON *good_resolve(cJSON * const object, const char *pointer)
+{
+    cJSON *current = object;
+    if (pointer == NULL) { return NULL; }
+    while ((pointer[0] == '/') && (current != NULL))
+    {
+        pointer++;
+        current = current->child;
+        while ((pointer[0] != '\0') && (pointer[0] != '/')) { pointer++; }
+    }
+    if (pointer[0] != '\0') { return NULL; }
+    return current;
+}
+cJSON *good_resolve_checked_first(cJSON * const object, const char *pointer)
+{
+    cJSON *current = object;
+    if ((pointer == NULL) || ((pointer[0] != '\0') && (pointer[0] != '/'))) { return NULL; }
+    while ((pointer[0] == '/') && (current != NULL))
+    {
+        pointer++;
+        current = current->child;
+        while ((pointer[0] != '\0') && (pointer[0] != '/')) { pointer++; }
+    }
+    return current;
+}
+
 /* LST1 (relinker calls, stale order) */
 static cJSON *sort_list(cJSON *list, const cJSON_bool case_sensitive) { (void)case_sensitive; if (list && list->next) { cJSON *n = list->next; n->next = list; list->next = NULL; n->prev = NULL; list->prev = n; return n; } return list; }
 static void bad_LST1_sort_same_head(cJSON * const object)
